@@ -125,7 +125,12 @@ LT2 = _LT[P.get("leaf2", "int")]
 
 def _check(doc: Any) -> bool:
     exp = oracle.evaluate(QUERY, doc)
-    ms = list(COMPILED.finditer(doc))
+    if P.get("route") == "async":  # the same semantics through the async entry point
+        from vlib.hs import alist, drive
+
+        ms = drive(alist(drive(COMPILED.finditer_async(doc))))
+    else:
+        ms = list(COMPILED.finditer(doc))
     if not why(len(ms) == len(exp), "count", [m.path for m in ms], [e[0] for e in exp]):
         return False
     for m, (parts, v) in zip(ms, exp):
